@@ -523,7 +523,10 @@ fn spec_step(s: &Setup, st: &SpecState, op: &Op, resp: &RespClass) -> Vec<SpecSt
       }
     }
     Op::Deploy => {
-      if !is_data {
+      // an `errors` answer is acceptable only as a report that some stored model did not build; the others must
+      // be deployed all the same (checked through later evaluations and the snapshot at quiescence)
+      let some_model_does_not_build = st.stored.iter().any(|(_, _, key)| !*s.facts.builds.get(key).unwrap_or(&false));
+      if !is_data && !some_model_does_not_build {
         return vec![];
       }
       let mut dep = BTreeMap::new();
